@@ -15,6 +15,7 @@ import (
 	"time"
 
 	"github.com/form3tech-oss/f1/v2/internal/options"
+	"github.com/form3tech-oss/f1/v2/internal/ui"
 	"github.com/form3tech-oss/f1/v2/internal/verifh/kit"
 	"github.com/form3tech-oss/f1/v2/internal/verifh/runkit"
 	f1testing "github.com/form3tech-oss/f1/v2/pkg/f1/testing"
@@ -115,5 +116,61 @@ func TestC15Runs(t *testing.T) {
 		o.AddStat("file_run_anomalies", int64(anomalies))
 		// c15_run_ok left anomalies tolerated stages_seen stages
 		o.Case("c15_run_ok", []string{kit.I(left), kit.I(anomalies), kit.I(tolerated), kit.I(stagesSeen), kit.I(ns)}, "T", tags...)
+	}
+}
+
+// The trigger as the CLI builds it (file.Rate(...).New(flags)) from a config whose stage-start
+// lies in the real past, so that some stages have already finished: its total duration is
+// still the sum of ALL stage durations (the run is capped by it), whatever was dropped.
+func TestC15Trigger(t *testing.T) {
+	o := kit.Get()
+	defer o.Close()
+	r := kit.NewRand(kit.Seed() + 151)
+	dir := t.TempDir()
+	n := kit.N(40, 400)
+	for i := 0; i < n; i++ {
+		ns := int(r.Range(1, 6))
+		var durs []int64
+		var total int64
+		for k := 0; k < ns; k++ {
+			d := r.Range(1, 600) * int64(time.Second)
+			durs = append(durs, d)
+			total += d
+		}
+		// restart instant: before the start, inside some stage, never after the end (10s margin)
+		back := kit.Pick(r, int64(-30*time.Second), 0, r.Range(0, total-int64(10*time.Second)), r.Range(0, total-int64(10*time.Second)))
+		if back > total-int64(10*time.Second) {
+			back = 0
+		}
+		start := time.Now().Add(-time.Duration(back)).UTC()
+		var b strings.Builder
+		b.WriteString("scenario: verifscenario\nlimits:\n  max-duration: 1h\n  concurrency: 2\n  max-iterations: 0\n  ignore-dropped: true\n")
+		b.WriteString("schedule:\n  stage-start: \"" + start.Format(time.RFC3339Nano) + "\"\nstages:\n")
+		for _, d := range durs {
+			b.WriteString(fmt.Sprintf("  - duration: %s\n    mode: constant\n    rate: 1/s\n    jitter: 0\n    distribution: none\n", time.Duration(d)))
+		}
+		path := filepath.Join(dir, fmt.Sprintf("c15t_%d.yaml", i))
+		_ = os.WriteFile(path, []byte(b.String()), 0o600)
+		cfg := runkit.Config{Mode: "file", FileArg: path}
+		trig, err := runkit.BuildTrigger(&cfg, ui.NewDiscardOutput())
+		if err != nil || trig == nil {
+			o.Fail("c15-trigger-error", fmt.Sprintf("a config with unfinished stages was rejected: %v", err))
+			continue
+		}
+		kept := strings.Count(trig.Description, "\n") // not used by the predicate beyond bounds
+		if kept < 1 {
+			kept = 1
+		}
+		if kept > ns {
+			kept = ns
+		}
+		tags := []string{"trigger"}
+		if back > 0 {
+			tags = append(tags, "nt", "restarted")
+			o.Count("restart", "stage-start in the past")
+		} else {
+			o.Count("restart", "fresh")
+		}
+		o.Case("c15_trigger_ok", []string{kit.Ints(durs), kit.I(int64(trig.Duration)), kit.I(kept)}, "T", tags...)
 	}
 }
